@@ -16,8 +16,8 @@ ID = "C20"
 CASES = {"quick": 3000, "thorough": 40000}
 FLOOR = {"quick": 2500, "thorough": 35000}
 FLOOR_COUNTERS = {
-    "quick": {"tiny_regulariser_cases": 150, "lpr_values_judged": 20000, "cpr_values_judged": 8000, "rank_deficient_cases": 250, "single_env_structures": 1500, "containers_reused_with_other_contents": 700, "block3d_inputs": 700, "integer_typed_structures": 800},
-    "thorough": {"tiny_regulariser_cases": 2000, "lpr_values_judged": 280000, "cpr_values_judged": 110000, "rank_deficient_cases": 3500, "single_env_structures": 20000, "containers_reused_with_other_contents": 10000, "block3d_inputs": 10000, "integer_typed_structures": 11000},
+    "quick": {"tiny_regulariser_cases": 150, "lpr_values_judged": 20000, "cpr_values_judged": 8000, "rank_deficient_cases": 250, "single_env_structures": 1500, "containers_reused_with_other_contents": 700, "block3d_inputs": 700, "integer_typed_structures": 800, "features_absent_from_the_training_set": 200},
+    "thorough": {"tiny_regulariser_cases": 2000, "lpr_values_judged": 280000, "cpr_values_judged": 110000, "rank_deficient_cases": 3500, "single_env_structures": 20000, "containers_reused_with_other_contents": 10000, "block3d_inputs": 10000, "integer_typed_structures": 11000, "features_absent_from_the_training_set": 3000},
 }
 RULE = (
     "case = 1-15 training and 1-8 test structures of 1-8 environments (incl. single-environment structures), feature "
@@ -53,11 +53,17 @@ def gen(rng, tier, index):
     cuts = np.sort(rng.choice(np.arange(1, d), size=ncomp - 1, replace=False)) if ncomp > 1 else np.array([], int)
     comp_dims = np.diff(np.concatenate([[0], cuts, [d]])).astype(int)
     Xtr = strucs(ntr, dts[0])
+    unseen = bool(rng.random() < 0.12) and not (deficient or nearsing)
+    if unseen:  # a feature (the descriptor block of a species, say) that the training set never populates
+        col = int(rng.integers(d))
+        for x in Xtr:
+            x[:, col] = 0
     Xte = [x.copy() for x in Xtr[: min(nte, ntr)]] if form == "block3d_shared" else strucs(nte, dts[1])
     return {
         "Xtr": Xtr,
         "Xte": Xte,
         "form": form,
+        "unseen": bool(unseen),
         "dtypes": dts,
         "decoy": [strucs(ntr), strucs(len(Xte))],
         "alpha": 1e-300 if deficient else (float(10.0 ** rng.uniform(-11.5, -9.0)) if nearsing else float(10.0 ** rng.uniform(-8, 3))),
@@ -150,6 +156,8 @@ def run(case, j):
         j.note("block3d_inputs")
     if case.get("dtypes", ["float64"] * 2) != ["float64"] * 2:
         j.note("integer_typed_structures")
+    if case.get("unseen"):
+        j.note("features_absent_from_the_training_set")
     args.first_life(lpr_fn, cpr_fn, alpha, comp)
     j.tag("rank-deficient" if case["deficient"] else ("tiny-regulariser" if case["alpha"] < 1e-8 else "regular"), f"components:{len(comp)}", f"dim:{d}")
     with rt.FPTrap() as fp:
